@@ -132,7 +132,17 @@ func (dc *decorator) schemaPosB(d Doc, boost string) Doc {
 		case 1:
 			add("default", g.value(2), "default")
 		case 2:
-			add("examples", DArr{g.value(1), g.value(2)}, "examples")
+			if r.chance(1, 4) {
+				// an example is any JSON value: numbers outside float64 included (the same for default)
+				big := pick(r, []Doc{DNum("1e400"), DNum("-1e999"), DObj{{"a", DArr{DNum("1"), DNum("12345678901234567890e380")}}}})
+				if r.chance(1, 2) {
+					add("examples", DArr{g.value(1), big}, "examples")
+				} else {
+					add("default", big, "default")
+				}
+			} else {
+				add("examples", DArr{g.value(1), g.value(2)}, "examples")
+			}
 		case 3:
 			add(pick(r, []string{"deprecated", "readOnly", "writeOnly"}), DBool(r.chance(1, 2)), "flag")
 			if r.chance(1, 2) {
